@@ -660,7 +660,9 @@ def _install():
     PROPERTIES["C20"]["rules"].append(shared_utils)
     PROPERTIES["C06"]["rules"].append(shared_made)
     # the three splines that omit the box-scale term of their log-derivative are only ever called on square boxes
-    from .spline_rules import square_rule
+    from .spline_rules import square_rule, cubic_mono_rule
+
+    PROPERTIES["C09"]["rules"].append(cubic_mono_rule)
 
     if square_rule not in PROPERTIES["C01"]["rules"]:
         PROPERTIES["C01"]["rules"].append(square_rule)
